@@ -28,7 +28,7 @@ property C04 proves (`ConstSpec.lean`):
   * an instruction graph must be a DAG (else unknown: loop); it is executed block by block in topological order with
     path conditions: a single out-edge is taken WITHOUT evaluating its guard, among several the first whose guard `is_one`
     (list order), none -> error; the exit block ends the graph; `branch` ends the whole run with that target;
-    intrinsics -> unknown; the graphs are chained as `Lift.runBTR` does; the successor is picked by the same rule;
+    an intrinsic ends the run with the outcome `trap:<name>` (per name, distinct from `err`); the graphs are chained as `Lift.runBTR` does; the successor is picked by the same rule;
   * every error (sort, div0, unmapped, wrap, no edge) is ONE outcome `err`.
 Observable result compared: err; and when not err: every scalar that is not a lifter temporary (`temp_*`, `branching_condition`
 — the names the proofs' `Abs`/`Agrees` relations ignore), the final mem and mapped arrays (extensional equality), the address
@@ -407,7 +407,10 @@ class Query:
             if k == "nop":
                 return pc, st, out
             if k == "intrinsic":
-                raise Unknown("intrinsic " + op[1])
+                # `execute` returns `.err .intrinsic`: the run stops here.  A separate outcome per intrinsic name (a trap is
+                # not interchangeable with a sort/div0/unmapped error, nor with another intrinsic)
+                out.append((pc, "trap:" + str(op[1])))
+                return FALSE, st, out
             if k == "assign":
                 (dn, dw), src = op[1], op[2]
                 t, w, er = self.eval_named(src, st)
@@ -636,10 +639,16 @@ class Query:
                 finals.append((p, "next", st, bv(b.succs[i][0], 64), en))
             if rest != FALSE:
                 finals.append((rest, "err"))
-        err = b_or(*[f[0] for f in finals if f[1] == "err"])
+        traps = {}
+        for f in finals:
+            if f[1].startswith("trap:") and f[0] != FALSE:
+                traps[f[1][5:]] = b_or(traps.get(f[1][5:], FALSE), f[0])
+        # `err` = the run does not reach a successor (errors and traps); `traps` says which intrinsic, if any
+        err = b_or(*([f[0] for f in finals if f[1] == "err"] + list(traps.values())))
         nexts = [f for f in finals if f[1] == "next" and f[0] != FALSE]
         res = {"err": self.define("Bool", err, "err"), "regs": {}, "mem": "mem0", "mapped": "mapped0", "next": bv(0, 64),
-               "enabled": {a: FALSE for a in addrs}, "partial": set()}
+               "enabled": {a: FALSE for a in addrs}, "partial": set(),
+               "traps": {n: self.define("Bool", t, "trap") for n, t in traps.items()}}
         if nexts:
             _, mst = self.merge([(f[0], f[2]) for f in nexts])
             res["regs"], res["mem"], res["mapped"], res["partial"] = mst.regs, mst.mem, mst.mapped, mst.partial
@@ -699,7 +708,10 @@ def build_pair(big, ba, bb):
         if x != y:
             diffs.append(("succ-0x%x" % a, "(distinct %s %s)" % (x, y)))
     labelled = [(lbl, q.define("Bool", t, "d")) for lbl, t in diffs]
-    stop = q.define("Bool", "(distinct %s %s)" % (ra["err"], rb["err"]), "d")
+    stops = ["(distinct %s %s)" % (ra["err"], rb["err"])]
+    for n in sorted(set(ra.get("traps", {})) | set(rb.get("traps", {}))):
+        stops.append("(distinct %s %s)" % (ra.get("traps", {}).get(n, FALSE), rb.get("traps", {}).get(n, FALSE)))
+    stop = q.define("Bool", b_or(*stops), "d")
     goal = b_or(stop, b_and(b_not(ra["err"]), b_or(*[d for _, d in labelled])))
     lines = q.header() + q.lines + ["(assert %s)" % goal]
     gets = [(("differs", "stop"), stop)] + [(("differs", l), "(and (not %s) %s)" % (ra["err"], d)) for l, d in labelled]
